@@ -189,20 +189,23 @@ Section Law.
   Variable quote : bytes -> bytes.
   Variable unquote : bytes -> option bytes.
 
-  (* on the canonical representative line() prints the pairs in their order *)
-  Lemma line_print m : keys_sorted m = true -> line quote m = print_tags quote m.
+  (* on the canonical representative line() prints the pairs in their order (either variant) *)
+  Lemma line_print_v fx m : keys_sorted m = true -> line_v fx quote m = print_tags_v fx quote m.
   Proof.
-    intros H. apply keys_sorted_SS in H. unfold line, line_ord, print_tags.
+    intros H. apply keys_sorted_SS in H. unfold line_v, line_ord_v, print_tags_v.
     rewrite (sort_keys_sorted_id _ (klt_keys_ble m H)).
-    rewrite (map_get_sorted_self m H (fun k v => (k, tag_val quote v))). reflexivity.
+    rewrite (map_get_sorted_self m H (fun k v => (k, v))).
+    f_equal. f_equal. rewrite <- (map_id m) at 2. apply map_ext. intros [k v]. reflexivity.
   Qed.
+  Lemma line_print m : keys_sorted m = true -> line quote m = print_tags quote m.
+  Proof. apply line_print_v. Qed.
 
   (* the iteration order of the Go map does not matter *)
   Lemma line_ord_perm m ord : keys_sorted m = true -> Permutation ord m -> line_ord quote ord = line quote m.
   Proof.
-    intros H P. unfold line, line_ord.
+    intros H P. unfold line, line_v, line_ord, line_ord_v.
     rewrite (sort_keys_order_independent (map fst ord) (map fst m) (Permutation_map fst P)).
-    f_equal. apply map_ext_in. intros k Hk. f_equal. f_equal.
+    f_equal. f_equal. apply map_ext_in. intros k Hk. f_equal.
     (* lookup in a duplicate-free enumeration does not depend on the order *)
     apply keys_sorted_SS in H.
     assert (ND : NoDup (map fst m)).
@@ -296,12 +299,12 @@ Section Law.
   Definition render_ok (kv : bytes * bytes) (r : bytes) : Prop :=
     fst kv <> [] /\ trim (fst kv) = fst kv /\ unq unquote (trim r) = Ok (snd kv).
 
-  Lemma pairs_of_flat (m : list (bytes * bytes)) (rv : bytes -> bytes) :
-    Forall (fun kv => render_ok kv (rv (snd kv))) m ->
-    pairs_of unquote (flat (map (fun kv => (fst kv, rv (snd kv))) m)) = Ok m.
+  Definition rendered (kv rr : bytes * bytes) : Prop := fst rr = fst kv /\ render_ok kv (snd rr).
+
+  Lemma pairs_of_flat (m rl : list (bytes * bytes)) : Forall2 rendered m rl -> pairs_of unquote (flat rl) = Ok m.
   Proof.
-    induction 1 as [|[k v] tl (Hk & Ht & Hu) Hall IH]; [reflexivity|].
-    cbn [fst snd] in *. cbn [map flat fst snd pairs_of]. rewrite Ht, Hu, IH.
+    induction 1 as [|[k v] [k' r] m' rl' (E & Hk & Ht & Hu) Hall IH]; [reflexivity|].
+    cbn [fst snd] in *. subst k'. cbn [flat pairs_of]. rewrite Ht, Hu, IH.
     destruct k; [congruence|reflexivity].
   Qed.
 
@@ -339,24 +342,38 @@ Section Law.
     destruct (quote v) as [|c q] eqn:E; [discriminate|]. cbn in F. rewrite F. cbn [orb]. rewrite U. reflexivity.
   Qed.
 
-  (* the rendering of a safe tag value *)
-  Lemma tag_val_ok v : tag_value_safe v = true ->
-    neutral (tag_val quote v) = true /\ trim (tag_val quote v) = tag_val quote v /\
-    unq unquote (tag_val quote v) = Ok v /\ tag_val quote v <> [].
+  (* what the quoting predicate of the code leaves to be printed raw *)
+  Lemma raw_value_facts last v : tag_needs_quote last v = false ->
+    v <> [] /\ trimmed v = true /\ starts_quoted v = false /\ (last = true -> last_is RBR v = false).
   Proof.
-    unfold tag_value_safe, tag_val. destruct (tag_needs_quote v) eqn:Q; intros H.
-    - destruct (quote_facts v) as (_ & _ & Hl & N & _). repeat split; [exact N|apply quote_trimmed|apply quote_unq|].
-      intros E. rewrite E in Hl. cbn in Hl. lia.
-    - cbn [orb] in H. unfold raw_value_ok in H. apply andb_true_iff in H as [H Hq]. apply andb_true_iff in H as [Ht Hn].
-      repeat split; [exact Hn|apply trim_id; exact Ht| |].
-      + unfold unq. apply negb_true_iff in Hq. rewrite Hq. reflexivity.
-      + intros ->. discriminate.
+    unfold tag_needs_quote, tag_needs_quote_v, code_quote_edges. cbn [andb]. intros H.
+    apply orb_false_iff in H as [H1 H2]. apply orb_false_iff in H1 as [H1 _]. apply orb_false_iff in H1 as [H1 _].
+    apply orb_false_iff in H2 as [H2 H6]. apply orb_false_iff in H2 as [H2 H5]. apply orb_false_iff in H2 as [H3 H4].
+    repeat split.
+    - intros ->. discriminate.
+    - unfold trimmed. rewrite H3, H4. reflexivity.
+    - exact H5.
+    - intros ->. exact H6.
   Qed.
 
-  Lemma tag_val_last_rbr v : tag_needs_quote v = true -> last_is RBR (tag_val quote v) = false.
+  (* the rendering of a safe tag value at its place in the line *)
+  Lemma tag_val_ok last v : tag_value_safe last v = true ->
+    let r := tag_val quote last v in
+    neutral r = true /\ trim r = r /\ unq unquote r = Ok v /\ r <> [] /\ trimmed r = true /\
+    (last = true -> last_is RBR r = false).
   Proof.
-    intros Q. unfold tag_val. rewrite Q. destruct (quote_facts v) as (_ & L & _).
-    unfold last_is in *. exact (first_is_excl QUOTE RBR _ ltac:(discriminate) L).
+    unfold tag_value_safe, tag_val, tag_val_v. fold (tag_needs_quote last v).
+    destruct (tag_needs_quote last v) eqn:Q; intros H; cbn zeta.
+    - destruct (quote_facts v) as (F & L & Hl & N & _).
+      assert (T : trimmed (quote v) = true).
+      { unfold trimmed. rewrite (first_is_excl QUOTE SP _ ltac:(discriminate) F). unfold last_is in *.
+        rewrite (first_is_excl QUOTE SP _ ltac:(discriminate) L). reflexivity. }
+      repeat split; [exact N|apply quote_trimmed|apply quote_unq| |exact T|].
+      + intros E. rewrite E in Hl. cbn in Hl. lia.
+      + intros _. unfold last_is in *. exact (first_is_excl QUOTE RBR _ ltac:(discriminate) L).
+    - cbn [orb] in H. destruct (raw_value_facts last v Q) as (Hne & Ht & Hq & Hr).
+      repeat split; [exact H|apply trim_id; exact Ht| |exact Hne|exact Ht|exact Hr].
+      unfold unq. rewrite Hq. reflexivity.
   Qed.
 
   Lemma last_map {A B} (f : A -> B) l d : last (map f l) (f d) = f (last l d).
@@ -395,54 +412,81 @@ Section Law.
     - intros E. rewrite E in Hlen. cbn in Hlen. lia.
   Qed.
 
+  (* ---------- the rendered pairs of a line ---------- *)
+  Lemma render_snoc_v fx l k v :
+    render_v fx quote (l ++ [(k, v)]) =
+    map (fun kv => (fst kv, tag_val_v fx quote false (snd kv))) l ++ [(k, tag_val_v fx quote true v)].
+  Proof.
+    induction l as [|[a b] l IH]; [reflexivity|].
+    cbn [app render_v map fst snd]. rewrite IH. destruct l; reflexivity.
+  Qed.
+
+  Lemma name_facts k : name_ok k = true -> k <> [] /\ trimmed k = true /\ neutral k = true.
+  Proof.
+    intros H. unfold name_ok in H. apply andb_true_iff in H as [H H3]. apply andb_true_iff in H as [H1 H2].
+    repeat split; try assumption. destruct k; [discriminate|discriminate].
+  Qed.
+
+  Lemma render_pieces m : tag_pairs_safe m = true ->
+    Forall rpiece_ok (render quote m) /\ Forall2 rendered m (render quote m).
+  Proof.
+    induction m as [|[k v] tl IH]; intros H; [split; constructor|].
+    cbn [tag_pairs_safe] in H. apply andb_true_iff in H as [H Htl]. apply andb_true_iff in H as [Hn Hv].
+    destruct (IH Htl) as (I1 & I2). destruct (name_facts k Hn) as (N1 & N2 & N3).
+    destruct (tag_val_ok (is_nil tl) v Hv) as (V1 & V2 & V3 & _).
+    unfold render in *. cbn [render_v]. fold (tag_val quote (is_nil tl) v). split; constructor; try assumption.
+    - unfold rpiece_ok. cbn [fst snd]. repeat split; assumption.
+    - unfold rendered, render_ok. cbn [fst snd]. rewrite V2. repeat split; try assumption. apply trim_id. exact N2.
+  Qed.
+
+  Lemma tag_pairs_safe_last m k v : tag_pairs_safe (m ++ [(k, v)]) = true -> tag_value_safe true v = true.
+  Proof.
+    induction m as [|[a b] m IH]; cbn [app tag_pairs_safe]; intros H.
+    - apply andb_true_iff in H as [H _]. apply andb_true_iff in H as [_ H]. exact H.
+    - apply andb_true_iff in H as [_ H]. exact (IH H).
+  Qed.
+
+  (* the braces pass and the splitter over the printed line of a safe set: the rendered pairs come out *)
+  Lemma line_pieces m : tag_safe m = true -> m <> [] ->
+    remove_curly (print_tags quote m) = Ok (print_tags quote m) /\
+    split_string (print_tags quote m) = Ok (flat (render quote m)) /\ print_tags quote m <> [].
+  Proof.
+    intros Hsafe Hne0. unfold tag_safe in Hsafe. apply andb_true_iff in Hsafe as [Hall Hedge].
+    destruct m as [|[k1 v1] tl] eqn:Em; [congruence|]. rewrite <- Em in *.
+    destruct (exists_last (l := m)) as (m' & [kl vl] & Em2); [rewrite Em; discriminate|].
+    destruct (render_pieces m Hall) as (Hrp & _).
+    assert (Hn1 : name_ok k1 = true).
+    { rewrite Em in Hall. cbn [tag_pairs_safe] in Hall. apply andb_true_iff in Hall as [Hall _].
+      apply andb_true_iff in Hall as [Hall _]. exact Hall. }
+    destruct (name_facts k1 Hn1) as (_ & Ht1 & _).
+    assert (Hvl : tag_value_safe true vl = true) by (rewrite Em2 in Hall; exact (tag_pairs_safe_last _ _ _ Hall)).
+    destruct (tag_val_ok true vl Hvl) as (_ & _ & _ & Hnel & Ttl & Hrbr).
+    rewrite Em in Hedge. cbn [tag_edges_ok] in Hedge. apply negb_true_iff in Hedge.
+    change (print_tags quote m) with (join_pairs (render quote m)).
+    apply (pieces_join (render quote m) k1 (tag_val quote (is_nil tl) v1) (render quote tl)
+                (map (fun kv => (fst kv, tag_val quote false (snd kv))) m') (kl, tag_val quote true vl)).
+    - rewrite Em. reflexivity.
+    - rewrite Em2. apply render_snoc_v.
+    - exact Hrp.
+    - apply (trimmed_ends _ Ht1).
+    - exact Hedge.
+    - cbn [snd]. rewrite last_is_cons by exact Hnel. apply (trimmed_ends _ Ttl).
+    - cbn [snd]. rewrite last_is_cons by exact Hnel. apply Hrbr. reflexivity.
+  Qed.
+
   (* ---------- C08 (tags): print then parse is the identity on safe canonical tag sets ---------- *)
   Theorem tags_roundtrip m : keys_sorted m = true -> tag_safe m = true ->
     to_map unquote (line quote m) = Ok m.
   Proof.
-    intros Hs Hsafe. rewrite (line_print m Hs). unfold tag_safe in Hsafe.
-    apply andb_true_iff in Hsafe as [Hall Hedge]. rewrite forallb_forall in Hall.
-    destruct m as [|[k1 v1] tl] eqn:Em; [reflexivity|]. rewrite <- Em in *.
-    destruct (exists_last (l := m)) as (m' & [kl vl] & Em2); [rewrite Em; discriminate|].
-    set (f := fun kv : bytes * bytes => (fst kv, tag_val quote (snd kv))).
-    assert (Hpairs : forall kv, In kv m -> name_ok (fst kv) = true /\ tag_value_safe (snd kv) = true).
-    { intros kv I. specialize (Hall _ I). unfold tag_pair_safe in Hall. apply andb_true_iff in Hall. exact Hall. }
-    assert (Hname : forall k, name_ok k = true -> k <> [] /\ trimmed k = true /\ neutral k = true).
-    { intros k H. unfold name_ok in H. apply andb_true_iff in H as [H H3]. apply andb_true_iff in H as [H1 H2].
-      repeat split; try assumption. destruct k; [discriminate|discriminate]. }
-    assert (I1 : In (k1, v1) m) by (rewrite Em; left; reflexivity).
-    assert (Il : In (kl, vl) m) by (rewrite Em2; apply in_or_app; right; left; reflexivity).
-    destruct (Hpairs _ I1) as (Hn1 & _). destruct (Hname _ Hn1) as (_ & Ht1 & _). cbn [fst] in *.
-    destruct (Hpairs _ Il) as (_ & Hvl). cbn [snd] in Hvl.
-    rewrite Em in Hedge. cbn [tag_edges_ok] in Hedge. rewrite <- Em in Hedge. rewrite Em2 in Hedge. rewrite last_last in Hedge.
-    cbn [snd] in Hedge. apply andb_true_iff in Hedge as [He1 He2]. apply negb_true_iff in He1.
-    destruct (tag_val_ok vl Hvl) as (_ & Htl & _ & Hnel).
-    destruct (pieces_join (map f m) k1 (tag_val quote v1) (map f tl) (map f m') (f (kl, vl))) as (Hrc & Hsp & Hne).
-    - rewrite Em. reflexivity.
-    - rewrite Em2, map_app. reflexivity.
-    - rewrite Forall_forall. intros kv I. apply in_map_iff in I as (kv0 & <- & I0).
-      destruct (Hpairs _ I0) as (Hn & Hv). destruct (Hname _ Hn) as (H1 & _ & H3).
-      destruct (tag_val_ok _ Hv) as (H4 & _). unfold rpiece_ok, f. cbn [fst snd]. repeat split; assumption.
-    - apply (trimmed_ends _ Ht1).
-    - exact He1.
-    - unfold f. cbn [fst snd]. rewrite last_is_cons by exact Hnel.
-      assert (T : trimmed (tag_val quote vl) = true).
-      { unfold tag_value_safe in Hvl. unfold tag_val. destruct (tag_needs_quote vl) eqn:Q.
-        - destruct (quote_facts vl) as (F & L & _). unfold trimmed.
-          rewrite (first_is_excl QUOTE SP _ ltac:(discriminate) F). unfold last_is in *.
-          rewrite (first_is_excl QUOTE SP _ ltac:(discriminate) L). reflexivity.
-        - cbn [orb] in Hvl. unfold raw_value_ok in Hvl. apply andb_true_iff in Hvl as [Hvl _].
-          apply andb_true_iff in Hvl as [Hvl _]. exact Hvl. }
-      apply (trimmed_ends _ T).
-    - unfold f. cbn [fst snd]. rewrite last_is_cons by exact Hnel.
-      destruct (tag_needs_quote vl) eqn:Q; [apply tag_val_last_rbr; exact Q|].
-      cbn [orb] in He2. apply negb_true_iff in He2. unfold tag_val. rewrite Q. exact He2.
-    - unfold to_map, to_pairs, print_tags. fold f. rewrite Hrc.
-      destruct (join_pairs (map f m)) as [|c0 r0] eqn:Ej; [congruence|]. rewrite Hsp.
-      unfold f. rewrite (pairs_of_flat m (tag_val quote)).
-      + rewrite (map_of_pairs_sorted m (keys_sorted_SS m Hs)). reflexivity.
-      + rewrite Forall_forall. intros kv I. destruct (Hpairs _ I) as (Hn & Hv). destruct (Hname _ Hn) as (H1 & H2 & _).
-        destruct (tag_val_ok _ Hv) as (_ & H5 & H6 & _). unfold render_ok. rewrite H5.
-        repeat split; [exact H1|apply trim_id; exact H2|exact H6].
+    intros Hs Hsafe. rewrite (line_print m Hs).
+    destruct m as [|kv1 tl] eqn:Em; [reflexivity|]. rewrite <- Em in *.
+    destruct (line_pieces m Hsafe ltac:(rewrite Em; discriminate)) as (Hrc & Hsp & Hne).
+    unfold tag_safe in Hsafe. apply andb_true_iff in Hsafe as [Hall _].
+    destruct (render_pieces m Hall) as (_ & Hr2).
+    unfold to_map, to_pairs. rewrite Hrc.
+    destruct (print_tags quote m) as [|c0 r0] eqn:Ej; [congruence|]. rewrite Hsp.
+    rewrite (pairs_of_flat m (render quote m) Hr2).
+    rewrite (map_of_pairs_sorted m (keys_sorted_SS m Hs)). reflexivity.
   Qed.
 End Law.
 
